@@ -6,6 +6,7 @@ pub mod devq;
 pub mod drive;
 pub mod ev;
 pub mod exec;
+pub mod fuzzapi;
 pub mod genr;
 pub mod io;
 pub mod out;
